@@ -2,7 +2,7 @@
    ONLY statements: each theorem is closed by `exact` of a lemma proved elsewhere and followed by Print Assumptions. *)
 From Coq Require Import ZArith NArith List Bool Lia Permutation.
 Import ListNotations.
-Require Import Files FilesProofs Base Strings Num Builtins Interp LinkNames.
+Require Import Files FilesProofs FilesTotal Base Strings Num Builtins Interp LinkNames.
 Open Scope Z_scope.
 Theorem open_keeps m bs s :
   fopen m (Some bs) = Some s -> resets m = false -> content s = bs.
@@ -88,6 +88,48 @@ Theorem append_history_keeps_prefix m disk ops final rs :
   history m (Some disk) ops = Some (final, rs) -> exists added, final = disk ++ added.
 Proof. exact (FilesProofs.append_history_keeps_prefix m disk ops final rs). Qed.
 Print Assumptions append_history_keeps_prefix.
+
+(* the TOTAL model (close + every refused operation) extends the permitted-operations model *)
+Theorem xhistory_conservative m disk ops final rs :
+  history m disk ops = Some (final, rs) ->
+  xhistory m disk (map XOp ops) = Some (final, map XVal rs).
+Proof. exact (FilesTotal.xhistory_conservative m disk ops final rs). Qed.
+Print Assumptions xhistory_conservative.
+
+(* a refused operation - closed handle, operation the mode forbids, negative target or size, read count below -1 - reports errno 9 or 22 and changes neither bytes nor position *)
+Theorem refused_changes_nothing s o s' e :
+  xstep s o = (s', XErr e) -> s' = s /\ (e = EBADF \/ e = EINVAL).
+Proof. exact (FilesTotal.refused_changes_nothing s o s' e). Qed.
+Print Assumptions refused_changes_nothing.
+
+Theorem closed_refuses_everything s o :
+  xclosed s = true -> xstep s (XOp o) = (s, XErr EBADF).
+Proof. exact (FilesTotal.closed_refuses_everything s o). Qed.
+Print Assumptions closed_refuses_everything.
+
+Theorem close_keeps_the_bytes s :
+  xs (fst (xstep s XClose)) = xs s /\ xclosed (fst (xstep s XClose)) = true /\ snd (xstep s XClose) = XNil.
+Proof. exact (FilesTotal.close_keeps_the_bytes s). Qed.
+Print Assumptions close_keeps_the_bytes.
+
+(* after a close nothing that follows changes the file and every later operation is refused *)
+Theorem closed_history_is_frozen  :
+  forall ops s, xclosed s = true ->
+  fst (xrun s ops) = s /\ Forall (fun r => r = XErr EBADF \/ r = XNil) (snd (xrun s ops)).
+Proof. exact (FilesTotal.closed_history_is_frozen ). Qed.
+Print Assumptions closed_history_is_frozen.
+
+(* read-only handles never change the bytes, in EVERY history - refused writes / truncates and closes included *)
+Theorem read_only_total_history_preserves disk ops final rs :
+  xhistory MR (Some disk) ops = Some (final, rs) -> final = disk.
+Proof. exact (FilesTotal.read_only_total_history_preserves disk ops final rs). Qed.
+Print Assumptions read_only_total_history_preserves.
+
+Theorem append_total_history_keeps_prefix m disk ops final rs :
+  appending m = true -> forallb (fun o => negb (x_is_trunc o)) ops = true ->
+  xhistory m (Some disk) ops = Some (final, rs) -> exists added, final = disk ++ added.
+Proof. exact (FilesTotal.append_total_history_keeps_prefix m disk ops final rs). Qed.
+Print Assumptions append_total_history_keeps_prefix.
 
 (* the six mode words regenerated from io.py map to rb wb ab r+b w+b a+b *)
 Theorem mode_table_documented  :
